@@ -4,7 +4,7 @@
 Require Extraction.
 Require ExtrOcamlBasic.
 From Coq Require Import List NArith ZArith String.
-From BV Require Import Base Fmt Gen.Escapes Buf Codec Get Gen.GetPut Cmp.
+From BV Require Import Base Fmt Gen.Escapes Buf Codec Get Gen.GetPut Cmp BufMut.
 Extraction Language OCaml.
 Extraction "model.ml"
   Fmt.parse_lit Fmt.debug_fmt Fmt.hex_fmt Fmt.unhex Fmt.tbl_of Fmt.visit Fmt.serialize Fmt.is_lower_hex Fmt.is_upper_hex
@@ -14,6 +14,9 @@ Extraction "model.ml"
   Base.lenN Base.firstnN Base.skipN Base.usize_max
   Buf.den Buf.remaining Buf.has_remaining Buf.chunk Buf.advance Buf.cv Buf.copy_to_slice Buf.try_copy_to_slice_d
   Buf.copy_to_bytes Buf.iter_take Buf.reader_read Buf.set_limit_at
+  BufMut.written BufMut.remaining_mut BufMut.has_remaining_mut BufMut.chunk_mut BufMut.advance_mut BufMut.put_slice BufMut.put_bytes
+  BufMut.put_buf BufMut.put BufMut.put_tables_ok BufMut.writer_write BufMut.set_limit_at_m BufMut.std_grow BufMut.tleaf_written
+  Gen.GetPut.vec_reserve Gen.GetPut.bytesmut_reserve
   Cmp.cmp_bytes Cmp.eq_bytes
   Codec.dec Codec.spec_of_getter Codec.spec_of_putter Codec.enc
   Get.get Get.tables_ok
